@@ -109,12 +109,15 @@ def _gen_ops(rng, keys, n, tag):
             else:
                 ops.append(['update', [[rng.choice(keys), '%s.%d' % (v, j)] for j in range(rng.randint(1, 3))],
                             rng.choice(['dict', 'pairs', 'iter'])])
+        elif r < 0.785:
+            # a generator argument that reads the cache while update() consumes it (one atomic read-modify-write)
+            ops.append(['update_rmw', [rng.choice(keys) for _ in range(rng.randint(1, 2))], '%s.r' % v])
         elif r < 0.80:
             ops.append(['ior', [[rng.choice(keys), '%s.%d' % (v, j)] for j in range(rng.randint(1, 2))]])
         elif r < 0.85:
             ops.append(['in', k])
         elif r < 0.89:
-            ops.append(['len'])
+            ops.append(['len'] if rng.random() < 0.8 else ['repr'])
         elif r < 0.92:
             ops.append(['dict'])
         elif r < 0.94:
@@ -197,6 +200,8 @@ def gen_case(rng, tier):
         edge = base[:2] + base[max_size - 2:max_size + 4]
         threads = [[op for op in _gen_ops(rng, edge, min(len(t), 3), 't%d' % i) if op[0] != 'copy'] or [['len']]
                    for i, t in enumerate(threads[:2])]
+        if rng.random() < 0.6:
+            threads[1].insert(rng.randint(0, len(threads[1])), ['repr'])     # a log line printing the whole cache
     nops = sum(len(t) for t in threads)
     if rng.random() < (0.004 if tier == 'thorough' else 0.001):
         # scale: one bulk update with very many items against short reader/writer programs
@@ -220,6 +225,7 @@ SWEEP_OPS = [
     ['del', 1], ['pop', 2], ['popitem'], ['clear'], ['update', [[3, 'D'], [1, 'E']], 'pairs'],
     ['ior', [[3, 'F']]], ['in', 1], ['len'], ['dict'], ['eq', [[1, 'p0'], [2, 'p1']]], ['copy'],
     ['update', [[3, 'G']], 'both', [['kw', 'H']]], ['ne', [[2, 'p1'], [3, 'B']]],
+    ['update_rmw', [1, 3], 'R'],
 ]
 _FIXED = {}
 
@@ -227,6 +233,8 @@ _FIXED = {}
 def _retag(op, tag):
     op = list(op)
     if op[0] in ('set', 'setdefault'):
+        op[2] = tag + op[2]
+    elif op[0] == 'update_rmw':
         op[2] = tag + op[2]
     elif op[0] in ('update', 'ior', 'update_bad'):
         op[1] = [[k, tag + v] for k, v in op[1]]
@@ -266,7 +274,7 @@ class _Sweep:
 
 
 _PRE = [[1, 'p0'], [2, 'p1']]
-MUTATORS = ('set', 'get', 'getd', 'setdefault', 'del', 'pop', 'popitem', 'clear', 'update', 'ior', 'copy', 'update_bad')
+MUTATORS = ('set', 'get', 'getd', 'setdefault', 'del', 'pop', 'popitem', 'clear', 'update', 'ior', 'copy', 'update_bad', 'update_rmw')
 
 
 def fixed_cases(tier):
